@@ -128,9 +128,9 @@ class CompileGuard:
     def __init__(self):
         self.inside = 0
         self.max_inside = 0
-        self.sched_lock = None
+        self.registry = None
 
-    def install(self, sched_lock):
+    def install(self, registry):
         import hashlib
         import os
         import shutil
@@ -139,7 +139,7 @@ class CompileGuard:
 
         from ..common import BUILD_DIR
 
-        self.sched_lock = sched_lock
+        self.registry = registry
         orig = FFI.compile
         guard = self
         cache_dir = os.path.join(BUILD_DIR, "ts_cffi")
@@ -149,7 +149,7 @@ class CompileGuard:
             guard.inside += 1
             guard.max_inside = max(guard.max_inside, guard.inside)
             try:
-                s = guard.sched_lock.sched if guard.sched_lock is not None else None
+                s = guard.registry.current if guard.registry is not None else None
                 if s is not None and s.current_tid() is not None:
                     s.point(s.current_tid(), ("FFI.compile", "inside"))
                 src = repr(getattr(ffi_self, "_assigned_source", None))
@@ -182,8 +182,8 @@ def work(unit):
     if SCENARIOS[name][2] == "cffi":
         import tensora.compile._compile_cffi as cc
 
-        lock = ts.SchedLock()
-        cc.lock = lock
+        lock = ts.LockRegistry()
+        ts.reload_with_sched_locks(cc, lock)
         guard = CompileGuard()
         guard.install(lock)
     sc = Scenario(name)
@@ -236,6 +236,7 @@ def plan(tier):
             ("S6-eval-vs-drop", "core+weakref", 2, 8),
             ("S2-same-cold", "core", 1, 6),
             ("S3-diff-cold", "core", 1, 6),
+            ("S4-cffi-cold", "core", 1, 6),
         ]
     return [
         ("S1-same-warm", "core+weakref", 2, 16),
@@ -327,8 +328,8 @@ def replay(path):
     if case.get("backend") == "cffi":
         import tensora.compile._compile_cffi as cc
 
-        lock = ts.SchedLock()
-        cc.lock = lock
+        lock = ts.LockRegistry()
+        ts.reload_with_sched_locks(cc, lock)
         CompileGuard().install(lock)
     sc = Scenario(name)
     ex = ts.Explorer(sc, VISIBLE[case["visible"]], case["bound"], lock=lock)
